@@ -482,6 +482,30 @@ def tail_protocol(ctx, rr):
         sw = [c for c in ast.walk(loop) if isinstance(c, ast.Call) and any(t.cls in STORAGES and t.name == 'write' for t in P.targets(c))]
         ok = ok and len(sw) == 1 and len(sw[0].args) == 1 and not sw[0].keywords
         rr.info['tail_writer_ops'] = [list(map(str, o)) for o in ops]
+    # the "is this a new node" test of the tail writer sees the state before this write: `self.exists` is not set earlier in write()
+    if loops:
+        cfgw = ctx.cfg(w)
+        encl = P.parent.get(id(loops[0]))
+        while encl is not None and not isinstance(encl, ast.If):
+            encl = P.parent.get(id(encl))
+        sets = [n_ for n_ in cfgw.nodes if n_.kind == 'stmt' and isinstance(n_.ast, ast.Assign) and any(ast.unparse(t) == 'self.exists' for t in n_.ast.targets)]
+        tests = [n_ for n_ in cfgw.nodes if n_.kind == 'test' and encl is not None and n_.ast is encl.test]
+        early = False
+        for s0 in sets:
+            seen_, work_ = set(), [s0]
+            while work_:
+                x_ = work_.pop()
+                for y_, _lab in x_.succ:
+                    if y_.id not in seen_:
+                        seen_.add(y_.id)
+                        work_.append(y_)
+            if any(t_.id in seen_ for t_ in tests):
+                early = True
+        oke = bool(tests) and 'self.exists' in ast.unparse(encl.test) and not early
+        rr.ob(ctx.where(w, encl or w.node), 'write: the tail is written for every node that did not exist before this write (`exists` is updated after the tail test)', ok=oke)
+        if not oke:
+            fail(w, encl or w.node, 'the tail writer no longer runs for every new node with an overflowing stem (`self.exists` is set before the test, or the test lost it): the head '
+                 'is flagged HAS_TAIL but no tail block follows, the next appended block is swallowed as its tail')
     rr.ob(ctx.where(w), 'write: each tail block carries IS_TAIL, carries HAS_TAIL iff it is not the last chunk, and is appended', ok=ok)
     if not ok:
         fail(w, loops[0] if loops else w.node, 'tail writer does not flag IS_TAIL on every chunk and HAS_TAIL exactly on non-last chunks (or does not append)')
